@@ -724,7 +724,11 @@ type xObs struct {
 	Snap  []map[string]keyObs `json:"snap"`
 	// frozen / unfrozen split per address (GetBalanceDetail), range scan of the whole bucket through the live
 	// reader (Select), chain-governed parameters ("genesis" while they are what the genesis block configured)
-	Bald   [][]string `json:"bald"`
+	// the pool as the miner asks for it (GetUnconfirmedTx(true): without transactions already on the main chain) and the
+	// order in which the pool yields its transactions (GetUnconfirmedTx(false), unsorted)
+	Poold   []string `json:"poold"`
+	Poolseq []string `json:"poolseq"`
+	Bald    [][]string `json:"bald"`
 	Scan   [][]string `json:"scan"`
 	Params string     `json:"params"`
 }
@@ -849,10 +853,20 @@ func (s *xsim) project(nd *fx.Node) (o xObs) {
 	if err != nil {
 		o.Pool = append(o.Pool, "err")
 	}
+	o.Poold, o.Poolseq = []string{}, []string{}
 	for _, t := range pending {
 		o.Pool = append(o.Pool, s.txName(t.Txid))
+		o.Poolseq = append(o.Poolseq, s.txName(t.Txid))
 	}
 	sort.Strings(o.Pool)
+	if dd, err := st.GetUnconfirmedTx(true); err != nil {
+		o.Poold = append(o.Poold, "err")
+	} else {
+		for _, t := range dd {
+			o.Poold = append(o.Poold, s.txName(t.Txid))
+		}
+	}
+	sort.Strings(o.Poold)
 	// snapshots at every block of the pointer's chain, oldest first
 	chain := []int{}
 	cur := st.GetLatestBlockid()
